@@ -111,6 +111,17 @@ func (c *Client) startTimer() {
 	if c.timer != nil {
 		c.timer.Stop()
 	}
+	// Don't schedule another keep-alive once the protocol has shut down. The cleanup
+	// goroutine stops the timer exactly once when DoneChan() closes; a timer created
+	// after that (by a sendKeepAlive that was already running, or by Start() on a
+	// connection that has already ended) would never be stopped and would re-arm
+	// itself forever. Both sides hold timerMutex, so either the cleanup goroutine
+	// stops the timer created here or we observe the closed channel.
+	select {
+	case <-c.DoneChan():
+		return
+	default:
+	}
 	// Create new timer
 	c.timer = time.AfterFunc(c.config.Period, c.sendKeepAlive)
 }
